@@ -113,7 +113,7 @@ def work(item, opts):
 
 def check(prop, tier, seed):
     rep = Report(prop, tier, seed)
-    per_opt = 3 if tier == "quick" else 30
+    per_opt = 3 if tier == "quick" else 80
     items = [make_item(seed, k) for k in range(84 * per_opt)]
     for rep_ in range(2 if tier == "quick" else 8):
         items += [make_item(seed, 100000 + 1000 * rep_ + j, variant=v) for j, v in enumerate(universe.all_optional_variants())]
